@@ -268,7 +268,7 @@ def h_faithful(ch: Chooser, vec: list, maxfeat: int, oname: str, free_instances:
         kind, detail = ent["problem"]
         if kind == "generated-package-unusable" and "Compound field contains ambiguous types" in str(detail) and "mixed" in s.features and opts.get("unnest_classes"):
             return dict(ok=False, case=case, bucket="KF/mixed-content-with-two-children-of-one-type-unnested-is-ambiguous", detail=str(detail)[:800])
-        if kind == "generated-package-unusable" and opts.get("structure_style") == "namespaces" and "no-namespace" in s.features and s.import_ is not None and any(
+        if kind == "generated-package-unusable" and opts.get("structure_style") == "namespaces" and s.tns is None and s.import_ is not None and any(
                 f.count("/") == 0 and f.endswith(".py") and f != "__init__.py" for f in ent["gen"].files):
             return dict(ok=False, case=case, bucket="KF/namespaces-style-module-shadowed-by-package-of-the-same-name", detail=str(detail)[:800])
         return dict(ok=False, case=case, bucket=f"{kind}/" + "+".join(s.features) + f"/{oname}", detail=str(detail)[:800])
